@@ -88,6 +88,11 @@ Theorem C02_length_lower_bound : forall c n,
 Proof. exact produces_length_lower_bound. Qed.
 Print Assumptions C02_length_lower_bound.
 
+Theorem C02_superset_length_lower_bound : forall c ts,
+  superset c ts = Ok tt -> forall t, In t ts -> Z.log2_up t <= Z.of_nat (length c - 1).
+Proof. exact superset_length_lower_bound. Qed.
+Print Assumptions C02_superset_length_lower_bound.
+
 (* ---- non-vacuity: the hypotheses are met by non-trivial objects ---- *)
 
 (* an unsorted valid chain, accepted; its program and the round trip *)
